@@ -12,7 +12,7 @@ pub fn prop() -> Prop {
     Prop {
         id: "C10",
         level: "exploration",
-        rule: "events of well-formed packets on random subsets of wires / pads with random raw waveforms (lengths incl. <= delay, suppressed 16-byte packets, i16 extremes), every (board, channel) and (board, chip, pad channel) covered in the thorough tier, runs {simulation, 9277, 10417, 10418, 11083, 11084, 12000, random >= 9277} and unavailable runs {0, 2940, 2941, 4417, 6999, 7025, 9276}; after Ok the private signal arrays (hook) are compared slot by slot, bit by bit, with arrays computed from the public maps and calibration files parsed by the harness; missing calibration with post-delay samples must fail, without post-delay samples is a don't-care. Each single inconsistency injected into a valid event must fail: renamed bank (other board / channel), swapped payloads, duplicated wire bank (same / different content, both orders, sample-less), duplicated PWB chunk, second TRG, no TRG, BV channel in a C bank, board not installed for the run, malformed wire / pad / TRG payload, unknown bank; BV / TRBA / MCVX garbage must be ignored. Non-trivial = distinct built events x occupied slots compared (hash of event) + distinct injected inconsistencies. Also: every ordered pair of {long, short, suppressed} wire banks with one name; events without any sample at 16 run numbers (must build); the same banks under run sequences across the pad-map epochs (history independence). Round 4: every pad of the detector (32 x 576) under the simulation and under real runs on either side of each calibration epoch (9500, 10418, 11500). Round 5: pads of a chip sent twice (second message under another chip label; long and without post-delay samples); per-packet PWB header metadata varied; events built as the first call of a new thread. Round 6: a packet of another board inside correctly named chunks; unknown names next to every family of known names; TRG counters beyond 2^28; events of 8 run numbers built on 8 threads at once. Round 7: wire banks with every legal combination of the footer keep fields (keep_last at its minimum, anywhere, at its maximum for the sample count); wires of more than 4 096 samples with keep_last beyond 11 bits. Round 8: a second message for a chip with an overlapping but different channel set (a new channel first).",
+        rule: "events of well-formed packets on random subsets of wires / pads with random raw waveforms (lengths incl. <= delay, suppressed 16-byte packets, i16 extremes), every (board, channel) and (board, chip, pad channel) covered in the thorough tier, runs {simulation, 9277, 10417, 10418, 11083, 11084, 12000, random >= 9277} and unavailable runs {0, 2940, 2941, 4417, 6999, 7025, 9276}; after Ok the private signal arrays (hook) are compared slot by slot, bit by bit, with arrays computed from the public maps and calibration files parsed by the harness; missing calibration with post-delay samples must fail, without post-delay samples is a don't-care. Each single inconsistency injected into a valid event must fail: renamed bank (other board / channel), swapped payloads, duplicated wire bank (same / different content, both orders, sample-less), duplicated PWB chunk, second TRG, no TRG, BV channel in a C bank, board not installed for the run, malformed wire / pad / TRG payload, unknown bank; BV / TRBA / MCVX garbage must be ignored. Non-trivial = distinct built events x occupied slots compared (hash of event) + distinct injected inconsistencies. Also: every ordered pair of {long, short, suppressed} wire banks with one name; events without any sample at 16 run numbers (must build); the same banks under run sequences across the pad-map epochs (history independence). Round 4: every pad of the detector (32 x 576) under the simulation and under real runs on either side of each calibration epoch (9500, 10418, 11500). Round 5: pads of a chip sent twice (second message under another chip label; long and without post-delay samples); per-packet PWB header metadata varied; events built as the first call of a new thread. Round 6: a packet of another board inside correctly named chunks; unknown names next to every family of known names; TRG counters beyond 2^28; events of 8 run numbers built on 8 threads at once. Round 7: wire banks with every legal combination of the footer keep fields (keep_last at its minimum, anywhere, at its maximum for the sample count); wires of more than 4 096 samples with keep_last beyond 11 bits. Round 8: a second message for a chip with an overlapping but different channel set (a new channel first). Round 9: every reserved bit of the TRG packet, one at a time, inside an otherwise valid event.",
         assumptions: &["TpcWirePosition::try_new / TpcPadPosition::try_new are judged by C08", "calibration epochs transcribed: wires map 2941, baseline 7026, gain 9277/11084, delay 100 sim / 129 from 7000; pads map 4418/10418, baseline & gain 9277/11084, delay 100 sim / 115 from 7000"],
         profiles: release_only,
         shards: shards16,
